@@ -7,6 +7,7 @@
 (*        TRACE_DEV), unless the specification abstains (Unmodelled)         *)
 (*   ev = "meta": two renderings of one logical file and both outcomes:     *)
 (*        each must conform, and the outcomes must be equal                  *)
+(*   ev = "hostile": an input whose size is the attack; outcome class only  *)
 EXTENDS ZoneFile, TLC, Json, IOUtils
 
 Rec == ndJsonDeserialize(IOEnv.TRACE)
@@ -44,7 +45,14 @@ T_Meta == /\ IsEv("meta")
              \/ Ideal(Rec[l].a, Rec[l].origin, Rec[l].class) = Unmodelled
              \/ Ideal(Rec[l].b, Rec[l].origin, Rec[l].class) = Unmodelled
 
-TNext == T_Devs \/ T_Read \/ T_Meta
+\* hostile sizes (names of 70000 octets, 1 MiB lines, 10^5 parentheses ...):
+\* only totality is stated -- entries or an error, never a panic
+T_Hostile == /\ IsEv("hostile")
+             /\ \/ Rec[l].res \in {"ok", "err"}
+                \/ /\ Rec[l].dev \in Open          \* the input carries the guard of an open deviation
+                   /\ PrintT("TRACE_DEV " \o ToJson([devs |-> {Rec[l].dev}, text |-> Rec[l].kind, res |-> Rec[l].res]))
+
+TNext == T_Devs \/ T_Read \/ T_Meta \/ T_Hostile
 TSpec == TInit /\ [][TNext]_tvars
 
 Accepted ==
